@@ -195,15 +195,22 @@ def run_libxc(case):
     X = _lattice(nspin)
     n = X.shape[2]
     rt = _rho_tuple(nspin, n)
+    mutated = False
     try:
         ml = _model(case)
-        res, dres, vt = ml(X.copy(), tuple(r.copy(order="F") for r in rt), rhocut=case["rhocut"])
+        Xin = X.copy()
+        rin = tuple(r.copy(order="F") for r in rt)
+        res, dres, vt = ml(Xin, rin, rhocut=case["rhocut"])
+        if not np.array_equal(Xin, X) or any(not np.array_equal(a, b) for a, b in zip(rin, rt)):
+            mutated = True
     except Exception as e:
         return {"fail": [{"key": "cannot-evaluate;x;mul=%s;add=%s;mode=%s;%s" % (case["mul"], case["add"], case["mode"], type(e).__name__),
                           "msg": "libxc-baseline model %s raised %s: %s" % (cfg, type(e).__name__, str(e)[:200])}],
                 "evals": 1, "outcome": "raised"}
     evals = 1
     und = 0
+    if mutated:
+        fails.append({"key": "input-mutated;x;" + cfg, "msg": "MappedXC2.__call__ modified its feature array or density tuple"})
     worst = 0.0
     ck = ";".join("%s=%s" % (k, case[k]) for k in ("ev", "mode", "nspin", "mul", "add", "rhocut"))
 
